@@ -208,6 +208,16 @@ theorem print_default (hpct : '%' ∉ cfg.conv) (hfs : firing cfg 's' = [.cstr])
   rcases o4.call prim l3 .none with ⟨o5, oc5⟩
   cases oc5 <;> rfl
 
+/-- a format that is the one specification `%s`, with a Type object: one call with the type's name (`c_str` of a Type) -/
+theorem print_type (hpct : '%' ∉ cfg.conv) (hfs : firing cfg 's' = [.cstr]) (f : Str)
+    (hp : parseFmt cfg.conv f = some [.spec [] 's']) (t : Str) (o : Out) :
+    (printToWith cfg prim shw f [.type t] o).pair = o.call prim ['%', 's'] (.cstr t) := by
+  obtain ⟨hr, hwf, _⟩ := parse_sound cfg.conv _ _ _ hp
+  rw [← hr, printToWith_pair cfg prim shw [.type t] hpct _ hwf o]
+  simp only [refRun, List.getElem?_cons_zero, List.nil_append, dispatch_single cfg prim shw 's' .cstr hfs, action, cStr]
+  rcases o.call prim ['%', 's'] (.cstr t) with ⟨o1, oc1⟩
+  cases oc1 <;> rfl
+
 /-- what Table_Show / Tree_Show do with the pairs: key show, `mid`, value show; the separator between two pairs -/
 def showPairsSpec (mid sep : Str) : List (Obj × Obj) → Out → Out × Outcome
   | [], o => (o, .ok)
